@@ -35,7 +35,7 @@ def sh(cmd, cwd=None, timeout=1800):
 
 RELATED = {
     # checks that share the mechanism the property rests on (a violation may be attributed there)
-    "C02": ["C03", "C04"], "C04": ["C02", "C16"], "C03": ["C20"], "C06": ["C05", "C07", "C10"], "C07": ["C06", "C05"], "C09": ["C06"], "C10": ["C06", "C11", "C15"],
+    "C02": ["C03", "C04"], "C04": ["C02", "C16"], "C03": ["C20"], "C06": ["C05", "C07", "C10"], "C07": ["C06", "C05"], "C09": ["C06", "C05", "C07", "C18"], "C10": ["C06", "C11", "C15"],
     "C11": ["C10", "C15", "C23"], "C12": ["C14"], "C13": ["C14", "C15"], "C14": ["C13", "C12"], "C15": ["C13", "C03", "C20"], "C16": ["C17", "C18", "C04"],
     "C17": ["C16", "C18", "C20"], "C18": ["C16", "C17"], "C19": ["C04", "C23"], "C20": ["C01", "C03", "C17"], "C21": ["C20"], "C22": ["C02", "C04"], "C23": ["C11", "C19", "C18"],
     "C01": ["C20"], "C05": ["C06"], "C08": ["C13"],
